@@ -162,6 +162,10 @@ def ref_le(l, r):
         return l <= r
     if kl == "str" and kr == "str":
         return l <= r
+    # "less than OR EQUAL": operands that are equal by Liquid equality satisfy <= and >= even when they
+    # have no ordering (nil/nil, true/true, equal arrays or hashes)
+    if ref_eq(l, r) is True:
+        return True
     return ref_lt(l, r)
 
 
